@@ -988,7 +988,8 @@ Lemma runs_match_evids ms : forall os,
 Proof.
   induction ms as [|m r IH]; intros [|o os] Hm H; cbn [runs_match] in H; try discriminate; [reflexivity|].
   apply andb_true_iff in H. destruct H as [H1 H2]. cbn [map]. f_equal.
-  - unfold run_matches in H1. apply andb_true_iff in H1. destruct H1 as [_ Hk].
+  - unfold run_matches in H1. apply andb_true_iff in H1. destruct H1 as [H1 _].
+    apply andb_true_iff in H1. destruct H1 as [_ Hk].
     unfold o_evid. rewrite (kw_eqb_ctx _ _ _ Hk (Hm m (or_introl eq_refl))). reflexivity.
   - apply IH; [intros m' Hm'; apply Hm; right; exact Hm'|exact H2].
 Qed.
